@@ -15,6 +15,13 @@ pub trait Scalar: Float + Debug + Display + Default + Send + Sync + 'static {
     /// bit identity (to_bits) for the IEEE scalars, value identity for Xq
     fn same(self, o: Self) -> bool;
     fn show(self) -> String;
+    /// arena position of the exact scalar (nothing for the IEEE scalars)
+    fn mark() -> usize {
+        0
+    }
+    /// give back every exact value created since `mark` except those in `keep`; only inside
+    /// oracles that hold no other handle from that span
+    fn release(_mark: usize, _keep: &mut [&mut Self]) {}
 }
 
 impl Scalar for f64 {
@@ -63,6 +70,12 @@ impl Scalar for Xq {
     }
     fn same(self, o: Xq) -> bool {
         (self.is_nan() && o.is_nan()) || self == o
+    }
+    fn mark() -> usize {
+        crate::xq::mark()
+    }
+    fn release(mark: usize, keep: &mut [&mut Xq]) {
+        crate::xq::release(mark, keep)
     }
     fn show(self) -> String {
         format!("{:?}", self)
